@@ -156,7 +156,7 @@ def gen_coqproject():
         open(proj, "w").write(txt)
 
 
-def coq_build(targets=None, timeout=3000, clean=False):
+def coq_build(targets=None, timeout=3000, clean=False, keep_going=False):
     """.vo build through coq_makefile + make (never -vos); targets = list like ['Props/C17.vo']
     (default: everything). Returns (ok, log)"""
     with Lock("coq"):
@@ -169,7 +169,7 @@ def coq_build(targets=None, timeout=3000, clean=False):
             rc, out = run(["coq_makefile", "-f", "_CoqProject", "-o", "Makefile"], cwd=COQ, timeout=120)
             if rc != 0:
                 return False, out
-        rc, out = run(["make", "-C", COQ, "-j16"] + (targets or []), timeout=timeout)
+        rc, out = run(["make", "-C", COQ, "-j16"] + (["-k"] if keep_going else []) + (targets or []), timeout=timeout)
         return rc == 0, out
 
 
